@@ -632,8 +632,9 @@ func (st *Runtime) executeInclude(node *IncludeNode) (returnValue reflect.Value)
 	if !name.IsValid() {
 		node.errorf("evaluating name of template to include: name is not a valid value")
 	}
-	if name.Type().Implements(stringerType) {
-		templatePath = name.String()
+	if name.Type().Implements(stringerType) && name.CanInterface() {
+		// (reflect.Value.String would yield "<T Value>" for anything that is not of kind string)
+		templatePath = name.Interface().(fmt.Stringer).String()
 	} else if name.Kind() == reflect.String {
 		templatePath = name.String()
 	} else {
